@@ -322,8 +322,8 @@ def run_sites(chk, facts, rid, cfg):
     if kinds == LOOPS:
         chk.rule(rid, f"T-LOOP census: {what}: every natural loop is paced (each trip advances a finite / caller-supplied / "
                       f"repo-defined iterator, or moves a counter by a constant towards a loop-invariant bound that ends the "
-                      f"loop) and has no trip that skips every exit test (a path from the loop head back to it through no block "
-                      f"that can leave the loop), or tolerated by rules/site_baseline.json (confirmed with a reason, or untriaged = existed on the "
+                      f"loop), has no trip that skips every exit test (a path from the loop head back to it through no block "
+                      f"that can leave the loop) and no trip that writes nothing any branch in the loop depends on, or tolerated by rules/site_baseline.json (confirmed with a reason, or untriaged = existed on the "
                       f"pinned tree and is not claimed); a new unpaced loop, or a loop that lost its pacing, is a violation")
         chk.assume("A-REPO-ITER: a loop paced by a repo-defined iterator terminates if that iterator is finite; finiteness of the "
                    "sequence is not decided here (its `next` is subject to the progress rule C01-i / C02-h)")
@@ -559,8 +559,9 @@ def run_engine_fixture(chk, rid="engine-fixture"):
         nlb = nlg = 0
         for name, ss in sorted(by_fn.items()):
             # `loop*_exit_*` fixtures exercise the exit-free-trip clause only, the others the pacing classification only
-            want_exit = name.startswith(("loopbad_exit_", "loopgood_exit_"))
-            ss = [s for s in ss if (s["kind"] == "loop:exit-free-trip") == want_exit]
+            want = ("loop:exit-free-trip" if name.startswith(("loopbad_exit_", "loopgood_exit_")) else
+                    "loop:stutter-trip" if name.startswith(("loopbad_stutter_", "loopgood_stutter_")) else None)
+            ss = [s for s in ss if (s["kind"] == want if want else s["kind"] not in ("loop:exit-free-trip", "loop:stutter-trip"))]
             if not ss:
                 continue
             if name.startswith("loopbad_"):
@@ -573,8 +574,8 @@ def run_engine_fixture(chk, rid="engine-fixture"):
                 chk.ob(rid, f"loop idiom {name}: {sum(1 for s in ss if s['ok'])} of {len(ss)} loop(s) paced", all(s["ok"] for s in ss),
                        key=f"loopidiom|{name}", file=ss[0]["body"].file, line=ss[0]["line"], fn=ss[0]["body"].path,
                        detail="a standard terminating loop is no longer recognised: " + "; ".join(s["why"] for s in ss if not s["ok"])[:200])
-        chk.floor(rid, "loop traps", nlb, 10)
-        chk.floor(rid, "loop idioms", nlg, 8)
+        chk.floor(rid, "loop traps", nlb, 11)
+        chk.floor(rid, "loop idioms", nlg, 10)
     finally:
         if "saved_pi" in locals():
             intervals.PARAM_INFO = saved_pi
